@@ -175,6 +175,7 @@ Record arrfacts := mkArrFacts {
   f_vr_init : vrinit;
   f_vr_loop_ok : bool;             (* for_each(begin, end, [&](const vec3i &idx) { v.extend(get(idx)); }); return v; *)
   f_vr_full_ok : bool;             (* getValueRange(): return getValueRange(vec3i(0), size()) *)
+  f_vr_no_override : bool;         (* no class of Array3D.h other than Array3D<T> defines a getValueRange of its own *)
   f_rg_default_empty : bool;       (* range_t() : lower(pos_inf), upper(neg_inf) *)
   f_rg_single : bool;              (* range_t(const T &t) : lower(t), upper(t) *)
   f_rg_extend_minmax : bool;       (* extend(t): lower = min(lower, t); upper = max(upper, t) *)
@@ -217,7 +218,7 @@ Definition for_each_of_facts (f : arrfacts) (lo hi : vec3 IZ) : list (vec3 IZ) :
   end.
 
 Definition value_range_of_facts (f : arrfacts) (a : arr) (b e : vec3 IZ) : option (Z * Z) :=
-  if f_vr_loop_ok f && f_rg_extend_minmax f then
+  if f_vr_loop_ok f && f_rg_extend_minmax f && f_vr_no_override f then
     match f_vr_init f with
     | VRInitEmpty => if f_rg_default_empty f then fold_left (fun r c => extend r (a_get a c)) (for_each b e) None else Some (0, -1)
     | VRInitGetBegin => if f_rg_single f then fold_left (fun r c => extend r (a_get a c)) (for_each b e) (Some (a_get a b, a_get a b)) else Some (0, -1)
